@@ -18,7 +18,7 @@ PROP = "C06"
 PARALLEL = True
 RULE = ("histories write(A); write(B, overwrite=o1); write(C, overwrite=o2) (length 2..4) over graphs whose property sets, id dtypes and sizes "
         "differ x store kind {MemoryStore, LocalStore, Path, str} x pre-state {absent, sibling group + foreign attrs} x zarr format; "
-        "entry points write_arrays (tied to the Coq model step by step) and geff.write for networkx (oracle only); a block of "
+        "entry points write_arrays (tied to the Coq model step by step) and geff.write for networkx and rustworkx over every store kind x pre-state x format (oracle only: refusal, complete replacement, foreign members kept); a block of "
         "format-changing overwrites (oracle only); after each call: exception class, key->bytes snapshot, abstract dump, read-back; "
         "non-trivial = at least one call hits an existing geff; distinct by structural input")
 EXHAUSTIVE_BLOCKS = ["store kind x zarr format x (o1, o2) in {F,T}^2 for one fixed triple of graphs"]
@@ -59,17 +59,30 @@ def generate(rng: random.Random, tier: str):
                    "calls": [dict(A, ov=False, validate=True), dict(B, ov=True, validate=True)]}
             yield {"kind": "history", "store": store, "fmt": [f1, f2], "pre": "fresh", "entry": "arrays",
                    "calls": [dict(A, ov=False, validate=True), dict(B, ov=False, validate=True)]}
-    for i in range(12 if tier == "quick" else 100):
+    # graph-library writers (their own overwrite guard in front of write_arrays' guard): every store kind x pre-state x format once,
+    # then random histories
+    k = 0
+    for store in ("mem", "local", "path", "str"):
+        for pre in ("fresh", "foreign"):
+            for fmt in (2, 3):
+                k += 1
+                yield {"kind": "history", "store": store, "fmt": [fmt, fmt, fmt], "pre": pre, "entry": ("nx", "rx")[k % 2],
+                       "calls": [nx_graph(rng, False), nx_graph(rng, True), nx_graph(rng, k % 3 == 0)]}
+    for i in range(16 if tier == "quick" else 200):
         fmt = rng.choice([2, 3])
-        yield {"kind": "history", "store": rng.choice(["mem", "path"]), "fmt": [fmt, fmt, fmt], "pre": "fresh", "entry": "nx",
+        yield {"kind": "history", "store": rng.choice(["mem", "local", "path", "str"]), "fmt": [fmt, fmt, fmt],
+               "pre": rng.choice(["fresh", "foreign"]), "entry": rng.choice(["nx", "rx"]),
                "calls": [nx_graph(rng, False), nx_graph(rng, rng.random() < 0.5), nx_graph(rng, rng.random() < 0.5)]}
 
 
 def nx_graph(rng, ov):
+    """a small attribute graph whose property NAMES vary from call to call (a stale property of the previous graph must not survive)"""
     n = rng.randint(1, 4)
-    ids = rng.sample(range(1, 40), n)
-    return {"nx_nodes": [[i, {"t": float(rng.randint(0, 9)), **({"lab": rng.choice(["a", "b"])} if rng.random() < 0.5 else {})}] for i in ids],
-            "nx_edges": [[ids[0], ids[-1], {"w": rng.randint(0, 9) / 2}]] if n >= 2 else [], "ov": ov, "validate": True}
+    ids = sorted(rng.sample(range(0, 40), n))
+    extra = rng.choice(["lab", "score", "kind", None])
+    ename = rng.choice(["w", "len"])
+    return {"nx_nodes": [[i, {"t": float(rng.randint(0, 9)), **({extra: rng.randint(0, 5)} if extra else {})}] for i in ids],
+            "nx_edges": [[ids[0], ids[-1], {ename: rng.randint(0, 9) / 2}]] if n >= 2 else [], "ov": ov, "validate": True}
 
 
 def do_call(c, call, store, fmt):
@@ -78,7 +91,7 @@ def do_call(c, call, store, fmt):
 
         write_arrays(store, gg.to_np(call["nids"]), gg.props_to_np(call["nprops"]), gg.to_np(call["eids"]), gg.props_to_np(call["eprops"]),
                      gg.make_metadata(call["md"]), zarr_format=fmt, structure_validation=call["validate"], overwrite=call["ov"])
-    else:
+    elif c["entry"] == "nx":
         import networkx as nx
 
         import geff
@@ -89,6 +102,18 @@ def do_call(c, call, store, fmt):
         for a, b, d in call["nx_edges"]:
             G.add_edge(a, b, **d)
         geff.write(G, store, zarr_format=fmt, overwrite=call["ov"])
+    else:
+        import rustworkx as rx
+
+        import geff
+
+        G = rx.PyDiGraph()
+        idx = {}
+        for i, d in call["nx_nodes"]:
+            idx[i] = G.add_node(dict(d))
+        for a, b, d in call["nx_edges"]:
+            G.add_edge(idx[a], idx[b], dict(d))
+        geff.write(G, store, zarr_format=fmt, overwrite=call["ov"], node_id_dict={v: k for k, v in idx.items()})
 
 
 def has_geff(store):
@@ -166,6 +191,17 @@ def run_impl(c):
                     step["diff"] = compare_graph(gg.to_np(call["nids"]), gg.to_np(call["eids"]), exp_n, gg.props_to_np(call["eprops"]) or {}, back)
                 except Exception as e:
                     step["diff"] = f"read raised {type(e).__name__}: {e}"[:120]
+            if step["res"][0] == "ok" and c["entry"] != "arrays":
+                step["foreign_kept"] = foreign(after_tree) == foreign(before_tree)
+                try:
+                    back = read_to_memory(store)
+                    step["lib_back"] = {"ids": sorted(int(x) for x in back["node_ids"]),
+                                        "edges": sorted([int(a), int(b)] for a, b in back["edge_ids"]),
+                                        "nprops": sorted(back["node_props"]), "eprops": sorted(back["edge_props"]),
+                                        "md_nprops": sorted(back["metadata"].node_props_metadata),
+                                        "md_eprops": sorted(back["metadata"].edge_props_metadata)}
+                except Exception as e:
+                    step["lib_back"] = f"read raised {type(e).__name__}: {e}"[:120]
             obs["steps"].append(step)
             if modelled and tree_printable(after_tree):
                 r = "(Ok tt)" if step["res"][0] == "ok" else f"(Err {step['res'][1]})"
@@ -206,6 +242,18 @@ def oracle(c, o):
                                "(something of the previous graph survives)", dict(tags, why="stale-survivor"))
             if st.get("diff"):
                 return Failure(c, slim(o), f"call {i}: after overwrite the store reads as a different graph: {st['diff']}", dict(tags, why="overwrite-differs"))
+        if st["existed"] and call["ov"] and c["entry"] != "arrays" and not fmt_change:
+            if st["res"][0] != "ok":
+                return Failure(c, slim(o), f"call {i}: {c['entry']} writer: overwrite of an existing geff raised {st['res'][1]}: {st['res'][2]}",
+                               dict(tags, why="overwrite-raises", exc=st["res"][1]))
+            exp = {"ids": sorted(i for i, _ in call["nx_nodes"]), "edges": sorted([a, b] for a, b, _ in call["nx_edges"]),
+                   "nprops": sorted({k for _, d in call["nx_nodes"] for k in d}), "eprops": sorted({k for _, _, d in call["nx_edges"] for k in d})}
+            exp["md_nprops"], exp["md_eprops"] = exp["nprops"], exp["eprops"]
+            if st.get("lib_back") != exp:
+                return Failure(c, slim(o), f"call {i}: {c['entry']} writer: after overwrite the store reads as {st.get('lib_back')}, written {exp} "
+                               "(something of the previous graph survives or the new one is incomplete)", dict(tags, why="overwrite-differs"))
+            if not st.get("foreign_kept", True):
+                return Failure(c, slim(o), f"call {i}: overwrite changed members or attributes that do not belong to the geff", dict(tags, why="foreign-lost"))
     return None
 
 
